@@ -151,6 +151,33 @@ def rule_shape(rep: Report, rid="C17.shape", rid_none="C17.none") -> None:
         if td and (td, n[2]) not in seen:
             seen.add((td, n[2]))
             check(td, n[1], b.tree, I, f"builder {td.lower()}", br.BFILE, n[2], b.fi.qualname)
+    # every other dictionary the builder constructs (locations, envelopes, ...) has the shape of some declared TypedDict
+    def fits(always, maybe, decl, name):
+        keys = always | maybe
+        return keys <= set(decl) and all(k in always or (name, k) in OPTIONAL_IN_PRACTICE for k, req in decl.items() if req)
+    nshape = 0
+    emitted = set()
+    seen_refs: set = set()
+    for brn in b.branches.values():
+        for v, _line, _gs in brn.returns:
+            for t in b.deep_terms(v, seen_refs, values_only=True):
+                if t[0] == "ref":
+                    emitted.add(t)
+    for n, ctx in nf.iter_nodes(b.tree):
+        if n[0] != "alloc" or not isinstance(I.obj(n[1]), HDict) or n[1] not in emitted:
+            continue        # intermediate dictionaries (e.g. the argument of reject_nones) are not part of the AST
+        cs = _dict_cases(I, b.tree, n[1])
+        if cs is None:
+            continue
+        always, maybe = cs
+        if not (always | maybe):
+            continue
+        nshape += 1
+        cands = [name for name, decl in tds.items() if fits(always, maybe, decl, name)]
+        closest = sorted(tds, key=lambda name: -len(set(tds[name]) & (always | maybe)))[:1]
+        rep.ob(rid, f"a dictionary built by the AST builder has the shape of a declared TypedDict", bool(cands), file=br.BFILE, line=n[2], function=b.fi.qualname,
+               expected=(f"e.g. {closest[0]}: {sorted(tds[closest[0]])}" if closest else "a declared shape"), found=sorted(always | maybe))
+    rep.floor("dictionaries built by the AST builder", nshape, 12)
     # compiler
     c = cr.cnf()
     rep.used_file(cr.CFILE)
@@ -191,3 +218,19 @@ def rule_vocab(rep: Report, rid="C17.vocab") -> None:
             if is_const(t) and isinstance(t[1], str):
                 consts.add(t[1])
     rep.eq(rid, "the only other keyword type a step can get is 'Unknown'", ["Unknown"], sorted(consts), **mr._kw(m))
+
+
+def rule_key_reads(rep: Report, rid="C17.reads") -> None:
+    """Reader side of the shape agreement: every constant key the compiler reads from (or tests on) an AST / pickle
+    dictionary is a key its TypedDict declares (own, inherited, or of a declared sub-shape such as the child envelopes)."""
+    from .. import tytype
+    c = cr.cnf()
+    I = c.I
+    rep.used_function(c.fi.qualname)
+    rs = tytype.key_reads(I, c.tree, c.fi)
+    typed = [r for r in rs if r[3]]
+    rep.floor("typed key reads in the compiler", len(typed), 40)
+    for line, key, base, cls, ok in typed:
+        rep.ob(rid, f"the compiler reads key '{key}' of {' | '.join(sorted(x.short for x in cls))}", bool(ok), file=cr.CFILE, line=line, function=c.fi.qualname,
+               expected=f"a declared key: {sorted(set().union(*[set(tytype.Typer(I, c.tree, c.fi).keys_of(x)) for x in cls]))}", found=f"{fmt(base, I)[:120]}[{key!r}]")
+    rep.counts["untyped key reads (no annotation reaches them)"] = len(rs) - len(typed)
